@@ -385,7 +385,10 @@ class MultiZone(SystemBase):  # 0005 (+/- 000C?)
                 return  # type: ignore[unreachable]
 
             # TODO: use msgz/I, not RP
-            secs: int = self._msg_value(Code._1F09, key="remaining_seconds")  # type: ignore[assignment]
+            # the length of the last known sync cycle is wanted here, even if that msg has
+            # since expired (NB: _msg_value() does not report expired msgs)
+            sync: Message | None = self._msgs.get(Code._1F09)
+            secs: int | None = sync.payload["remaining_seconds"] if sync else None
             if secs is None or this.dtm > prev.dtm + td(seconds=secs + 5):
                 return  # can only compare against 30C9 pkt from the last cycle
 
